@@ -298,9 +298,6 @@ def run(ctx):
                 step = len(cs) / float(cap[f])
                 cs = [cs[int(k * step)] for k in range(cap[f])]
             cases += cs
-    only = os.environ.get("C09_ONLY")  # development aid: restrict the replay to some case families
-    if only:
-        cases = [c for c in cases if c["id"].split(":")[0] in only.split(",")]
     ids = [c["id"] for c in cases]
     if len(set(ids)) != len(ids):
         raise Machinery("duplicate case ids")
@@ -346,8 +343,6 @@ def run(ctx):
             flat = [s for s in st if s and not isinstance(s[0], list)] + [x for s in st if s and isinstance(s[0], list) for x in s]
             if [sorted(s) for s in flat] != c["model_stores"][: len(flat)]:
                 ndrift_store += 1
-                if ndrift_store <= 3 and os.environ.get("C09_DEBUG"):
-                    print("STORE-DRIFT", r["id"], [sorted(s) for s in flat], c["model_stores"])
     if drift or ndrift_store:
         ex = sorted(drift.items())[:2]
         print("MODEL-DRIFT: %d behaviours whose access outcomes differ from SliceLazy(Mech_observed), %d whose materialised sets differ (descriptive, not a verdict)%s" % (len(drift), ndrift_store, (", e.g. %s" % (ex,)) if ex else ""))
@@ -384,3 +379,35 @@ def run(ctx):
         "result node positions are matched to source positions with 1e-9; float equalities use 1e-12 (DESIGN 3.3)",
         "index lists with repeated FACE indices are outside the quantifier ('index sets') and not generated",
     ]
+
+
+def replay(path):
+    """./check C09 --replay replays/C09_<clause>_<tier>.json : re-run the recorded cases and judge them again."""
+    import shutil
+
+    from harness.core import Ctx
+
+    with open(path) as fh:
+        data = json.load(fh)
+    cases = [v["replay"] for v in data.get("cases", []) if v.get("replay")]
+    seen = set()
+    cases = [c for c in cases if not (c["id"] in seen or seen.add(c["id"]))]
+    ctx = Ctx(PROP + "_replay", "replay", 0)
+    try:
+        recs = [X.record_case(c) for c in cases]
+        for r in recs:
+            if "_machinery" in r or "_skip" in r:
+                print("NOT-REPLAYED %s: %s" % (r["id"], r.get("_machinery") or r.get("_skip")))
+        good = [r for r in recs if "_machinery" not in r and "_skip" not in r]
+        failed, mach, skipped, _ = judge(ctx, good) if good else ({}, {}, {}, {})
+        for r in good:
+            rid = r["id"]
+            if rid in failed:
+                print("FAILS %s clauses=%s tags=%s info=%s" % (rid, sorted(failed[rid][0]), failed[rid][1], json.dumps(r.get("_info", {}).get("call"))))
+            elif rid in mach or rid in skipped:
+                print("NOT-JUDGED %s %s" % (rid, mach.get(rid) or skipped.get(rid)))
+            else:
+                print("HOLDS %s" % rid)
+        return 1 if failed else 0
+    finally:
+        shutil.rmtree(ctx.work, ignore_errors=True)
